@@ -52,6 +52,12 @@ pub fn replay(args: &Args) {
         let vo: Vec<Option<f64>> = enc_vec(&s);
         let voi: Vec<Option<i32>> = enc_vec(&s);
         let sp = Spy::new(1, vf.clone());
+        // a String series: "None" is the null of String, and the valid names straddle it
+        // lexicographically (a plain lexicographic comparator would sort the null into the middle)
+        const NAMES: [&str; 12] = ["Ann", "Bob", "Cy", "Dee", "Pam", "Quinn", "Rex", "Sue", "Tom", "Una", "zed", "zoe"];
+        let sname = |x: i64| -> String { if x == NULL { "None".to_string() } else { NAMES[(x + 4).clamp(0, 11) as usize].to_string() } };
+        let names_ok = all_of(s.iter(), |x| *x == NULL || (-4..=7).contains(x));
+        let vs: Vec<String> = s.iter().map(|x| sname(*x)).collect();
         // the same series with its nulls written as a NaN whose sign bit is set: the same null
         let vn: Vec<f64> = enc_vec_negnan(&s);
 
@@ -84,6 +90,12 @@ pub fn replay(args: &Args) {
                 if nullfree {
                     let vi: Vec<i32> = enc_vec(&s);
                     run!("Vec<i32>", vi);
+                    if all_of(s.iter(), |x| *x >= 0) {
+                        let vu: Vec<u64> = s.iter().map(|x| *x as u64).collect();
+                        run!("Vec<u64>", vu);
+                        let vz: Vec<usize> = s.iter().map(|x| *x as usize).collect();
+                        run!("Vec<usize>", vz);
+                    }
                 }
                 // ---- the same series in other units of measurement (OrderStats.tla QuantileHomogeneous) ----
                 if let Some(d) = v.get("deg").and_then(|d| d["quantile"].as_i64()) {
@@ -183,6 +195,9 @@ pub fn replay(args: &Args) {
                 if !nullfree {
                     run!("Vec<f64> (nulls as -NaN)->Vec<f64>", Vec<f64>, f64, vn);
                 }
+                if names_ok {
+                    run!("Vec<String>->Vec<f64>", Vec<f64>, f64, vs);
+                }
                 run!("Vec<Option<f64>>->Vec<Option<f64>>", Vec<Option<f64>>, Option<f64>, vo);
                 run!("Vec<Option<i32>>->Vec<f64>", Vec<f64>, f64, voi);
                 clear_log();
@@ -249,6 +264,9 @@ pub fn replay(args: &Args) {
                     runp!("Vec<f64>", vf, |x: f64| if x.is_nan() { NULL } else { x as i64 });
                     if !nullfree {
                         runp!("Vec<f64> (nulls as -NaN)", vn, |x: f64| if x.is_nan() { NULL } else { x as i64 });
+                    }
+                    if names_ok {
+                        runp!("Vec<String>", vs, |x: String| if x == "None" { NULL } else { NAMES.iter().position(|n| *n == x).map(|p| p as i64 - 4).unwrap_or(-777) });
                     }
                     runp!("Vec<Option<f64>>", vo, |x: Option<f64>| x.map(|y| y as i64).unwrap_or(NULL));
                     runp!("Vec<Option<i32>>", voi, |x: Option<i32>| x.map(|y| y as i64).unwrap_or(NULL));
